@@ -162,6 +162,33 @@ M("c17-benign-if-chain", "C17", "json_visit.c",
   "\tdefault: break;\n\t}\n\tif (ret == JSON_C_VISIT_RETURN_CONTINUE || ret == JSON_C_VISIT_RETURN_SKIP)\n\t\treturn 0;\n\tif (ret == JSON_C_VISIT_RETURN_POP || ret == JSON_C_VISIT_RETURN_STOP)\n\t\treturn 0;\n\treturn JSON_C_VISIT_RETURN_ERROR;",
   expect="silent")
 
+# ---- C16 -------------------------------------------------------------------------------------
+M("c16-strict-comment", "C16", "json_tokener.c",
+  "\t\t\tif (c == '/' && !(tok->flags & JSON_TOKENER_STRICT))", "\t\t\tif (c == '/')", needle="comment")
+M("c16-strict-trailing-comma-array", "C16", "json_tokener.c",
+  "\t\t\t\tif (state == json_tokener_state_array_after_sep &&\n\t\t\t\t    (tok->flags & JSON_TOKENER_STRICT))",
+  "\t\t\t\tif (0 && state == json_tokener_state_array_after_sep &&\n\t\t\t\t    (tok->flags & JSON_TOKENER_STRICT))", needle="trailing comma")
+M("c16-strict-ctrl-in-key", "C16", "json_tokener.c",
+  "\t\t\t\t\tsaved_state = json_tokener_state_object_field;\n\t\t\t\t\tstate = json_tokener_state_string_escape;\n\t\t\t\t\tbreak;\n\t\t\t\t}\n\t\t\t\telse if ((tok->flags & JSON_TOKENER_STRICT) && (unsigned char)c <= 0x1f)",
+  "\t\t\t\t\tsaved_state = json_tokener_state_object_field;\n\t\t\t\t\tstate = json_tokener_state_string_escape;\n\t\t\t\t\tbreak;\n\t\t\t\t}\n\t\t\t\telse if ((tok->flags & JSON_TOKENER_STRICT) && (unsigned char)c < 0x1f)",
+  needle="control character")
+M("c16-strict-single-quote-value", "C16", "json_tokener.c",
+  "\t\t\t\tif (tok->flags & JSON_TOKENER_STRICT)\n\t\t\t\t{\n\t\t\t\t\t/* in STRICT mode only double-quote are allowed */\n\t\t\t\t\ttok->err = json_tokener_error_parse_unexpected;\n\t\t\t\t\tgoto out;\n\t\t\t\t}\n",
+  "", needle="single-quoted")
+M("c16-strict-casecmp", "C16", "json_tokener.c",
+  "\t\t\tif ((!(tok->flags & JSON_TOKENER_STRICT) &&\n\t\t\t     strncasecmp(json_true_str, tok->pb->buf, size1) == 0) ||",
+  "\t\t\tif ((strncasecmp(json_true_str, tok->pb->buf, size1) == 0) ||", needle="case-insensitive")
+M("c16-strict-trim", "C16", "json_tokener.c",
+  "\t\t\tif (tok->is_double && !(tok->flags & JSON_TOKENER_STRICT))\n\t\t\t{\n\t\t\t\t/* Trim", "\t\t\tif (tok->is_double)\n\t\t\t{\n\t\t\t\t/* Trim", needle="trim")
+M("c16-trailing-allowed-in-strict", "C16", "json_tokener.c",
+  "\t    (tok->flags & (JSON_TOKENER_STRICT | JSON_TOKENER_ALLOW_TRAILING_CHARS)) ==\n\t        JSON_TOKENER_STRICT)",
+  "\t    (tok->flags & (JSON_TOKENER_STRICT | JSON_TOKENER_ALLOW_TRAILING_CHARS)) ==\n\t        (JSON_TOKENER_STRICT | JSON_TOKENER_ALLOW_TRAILING_CHARS))", needle="trailing")
+M("c16-default-rejects-comment-in-object", "C16", "json_tokener.c",
+  "\t\t\tif (c == '/' && !(tok->flags & JSON_TOKENER_STRICT))", "\t\t\tif (c == '/' && !(tok->flags & JSON_TOKENER_STRICT) && saved_state != json_tokener_state_object_field_end)",
+  needle="comment")
+M("c16-benign-flag-test", "C16", "json_tokener.c",
+  "\t\t\tif (c == '/' && !(tok->flags & JSON_TOKENER_STRICT))", "\t\t\tif (!(tok->flags & JSON_TOKENER_STRICT) && c == 0x2f)", expect="silent")
+
 
 def sh(cmd, **kw):
     return subprocess.run(cmd, shell=isinstance(cmd, str), stdout=subprocess.PIPE, stderr=subprocess.STDOUT, text=True, **kw)
